@@ -542,8 +542,74 @@ fn typed_footers<B: Backend>(opts: &Opts, rep: &mut Report) {
     }
 }
 
+/// Boundary shifts at the 2 GiB / 4 GiB scale (`--part huge`, one process): a message P || 0^n is
+/// signed by the library; the same signature over the short message P with the n zero bytes moved
+/// into the implicit assertion (v3/v4) or into the footer must be rejected. Length prefixes that
+/// lose high bits make the two pre-authentication strings coincide.
+fn huge_shift<B: Backend>(opts: &Opts, rep: &mut Report, four_gib_too: bool) {
+    if !opts.wants_backend(B::NAME) {
+        return;
+    }
+    let mut rng = Rng::derive(opts.seed, "c02.huge", B::VER as u64);
+    let kp = KeyPair::<B>::gen_for(Purp::Public, &mut rng);
+    for n in [1usize << 31, 1usize << 32] {
+        if n > (1 << 31) && !four_gib_too {
+            continue;
+        }
+        let p = rng.bytes(5);
+        let mut msg = vec![0u8; n + p.len()];
+        msg[..p.len()].copy_from_slice(&p);
+        let sig: Vec<u8> = {
+            let Ok(Ok(tok)) = guard(|| kp.seal(&msg, b"", b"")) else {
+                rep.inconclusive(&format!("{}: could not sign a {}-byte message", B::NAME, msg.len()));
+                continue;
+            };
+            // only the last SIG bytes are needed: decode the tail of the base64 body
+            let body = tok.rsplit('.').next().unwrap();
+            let keep = (B::SIG + 2).div_ceil(3) * 4 + 4;
+            let skip = (body.len() - keep) / 4 * 4;
+            let tail = crate::b64::decode(&body[skip..]).expect("own token is base64");
+            tail[tail.len() - B::SIG..].to_vec()
+        };
+        drop(msg);
+        let zeros = vec![0u8; n];
+        let short = join_token(&kp.header(), &[&p[..], &sig[..]].concat(), b"");
+        let d = |what: &str| json!({"backend": B::NAME, "signed_message": format!("{} || 0^{n}", hx(&p)), "offered": what, "token": short});
+        if B::HAS_AAD {
+            match guard(|| kp.open(&short, &zeros)) {
+                Ok(Err(e)) => rep.count(&format!("err.{}", err_kind(&e))),
+                Ok(Ok(_)) => rep.violation(&format!("C02|{}|public|accepted:shift-msg-to-aad:huge", B::NAME), d("message P, the zero bytes as implicit assertion")),
+                Err(pn) => rep.violation(&format!("C02|{}|public|panic:shift-msg-to-aad:huge", B::NAME), d(&pn)),
+            }
+            rep.case(&format!("{}.public.shift-msg-to-aad.huge", B::NAME), fnv_parts(&[&p, &(n as u64).to_le_bytes()]), true);
+        }
+        let with_footer = join_token(&kp.header(), &[&p[..], &sig[..]].concat(), &zeros);
+        match guard(|| kp.open(&with_footer, b"")) {
+            Ok(Err(e)) => rep.count(&format!("err.{}", err_kind(&e))),
+            Ok(Ok(_)) => rep.violation(&format!("C02|{}|public|accepted:shift-msg-to-footer:huge", B::NAME), d("message P, the zero bytes as footer")),
+            Err(pn) => rep.violation(&format!("C02|{}|public|panic:shift-msg-to-footer:huge", B::NAME), d(&pn)),
+        }
+        rep.case(&format!("{}.public.shift-msg-to-footer.huge", B::NAME), fnv_parts(&[&p, &(n as u64).to_le_bytes(), b"f"]), true);
+        rep.sample_class(&format!("{}.public.shift.huge", B::NAME), 1, || d("rejected"));
+    }
+}
+
 pub fn run(opts: &Opts) {
     let mut rep = Report::new("C02");
+    if opts.part.as_deref() == Some("huge") {
+        // one backend per shard process (each needs ~7 GiB for a 2 GiB message)
+        match opts.shard % 3 {
+            0 => huge_shift::<V4>(opts, &mut rep, true),
+            1 => huge_shift::<V2>(opts, &mut rep, false),
+            _ => {
+                #[cfg(feature = "ffi")]
+                huge_shift::<V4Na>(opts, &mut rep, false);
+            }
+        }
+        rep.set("rule", json!("2 GiB (thorough: and 4 GiB) boundary shifts: signature over P || 0^n offered with message P and the zero bytes as implicit assertion / as footer; must be rejected"));
+        rep.finish(opts);
+        return;
+    }
     for_backends!(opts, backend, opts, &mut rep);
     for_backends!(opts, typed_footers, opts, &mut rep);
     for_backends!(opts, relabel_purpose, opts, &mut rep);
